@@ -27,6 +27,10 @@ CHECKS = {
   technique="Lean 4 proof (case analysis over argument-kind predicates) + exhaustive differential correspondence over the whole mode x kind^4 matrix",
   text="The model of Timing.__init__ (strategy lookup + the three validate_init_args bodies) is proved to accept exactly the member combinations each mode allows, to reject everything else with TypeError/ValueError, to store the members as given, to report has_* exactly, to raise RuntimeError for absent members, and equality is proved to be equality of mode and members; the named constructors are the general one. The real constructor is run on all 4 x 13^4 = 114 244 (mode, argument kinds) cells and compared with the model and with the property's table (exhaustive), plus equality pairs, named constructors and attribute protection.",
   note="Trusted: hand model NiVerif/Model/Timing.lean, tied exhaustively on the finite matrix (one representative value per argument kind). Immutability of public names is Python attribute protection: observed directly (setattr/delattr raise AttributeError); the model simply has no mutating operation."),
+ "C16": dict(
+  technique="Lean 4 proof (kernel-checked finite tables + induction over the double loop) over tables regenerated from _state.py + translation validation + differential correspondence (small shapes exhaustive)",
+  text="The state table, enum and DigitalState.test are regenerated from the source each run; the table is proved equal to NI's compatibility table (specification constant), symmetric, reflexive, X-compatible with everything, DigitalState.test is proved to fail exactly on incompatible pairs and to raise ValueError for non-states; the model of waveform.test (argument checks + double loop) is proved, for all waveforms, signal counts and windows, to return exactly the list of incompatible positions with the right two sample indices, signal index and states in sample-then-column order, and ValueError for windows that do not fit or differing signal counts; to_char/from_char are proved inverse over '01ZLHXTV'.",
+  note="Trusted: hand model NiVerif/Model/DigitalTest.lean of the argument checks and loops (tie: all 64 pairs, all 1x1/1x2/2x1 waveform pairs exhaustively in thorough, seeded 2x2 and larger ones with every window relation, bool/int8 dtypes, values 8..255); niTable in Props/C16.lean is the specification."),
 }
 def main():
     checks = []
